@@ -507,12 +507,6 @@ Proof. exists 2%nat, (PSeq [PSeq [qn 0; qn 1; qn 2]; PSeq [qn 3; qn 4; qn 5]]). 
 Lemma rejects_refuted_index_error : exists n (b : pv Q),
   pv_numeric b = true /\ depth2 b = true /\ meaning n b = None /\ validate_bounds n b = RaiseOther /\ safe n b = false.
 Proof. exists 2%nat, (PSeq [PSeq [qn 0]; PSeq [qn 1]]). repeat split; vm_compute; reflexivity. Qed.
-(* PVDevice / GDevice reject a documented form that the base class accepts *)
-Lemma generator_mixed_form_refuted : exists n (b : pv Q) t,
-  meaning n b = Some t /\ ordered t = true /\ GDevice_bounds_accepts (highs t) = true /\
-  is_accept (ctor CDev n b PNone) = true /\ ctor CG n b PNone = RaiseValueError /\ ctor CPV n b PNone = RaiseValueError.
-Proof. exists 3%nat, (PSeq [PSeq [qn (-1); qn (-2); qn (-3)]; qn 0]). eexists. repeat split; vm_compute; reflexivity. Qed.
-
 (* non-vacuity of the theorems above: a well-typed, safe, well-formed specification and its table *)
 Lemma example_pair : let b := PSeq [qn 0; PSeq [qn 1; qn 2; qn 2]] in
   pv_numeric b = true /\ depth2 b = true /\ safe 3%nat b = true /\
